@@ -25,10 +25,12 @@ class LxmlEventHandler(XmlHandler):
             An instance of the class type representing the parsed content.
         """
         if isinstance(source, (etree._ElementTree, etree._Element)):
+            self.strip_comments(source)
             ctx = etree.iterwalk(source, EVENTS)
         elif self.parser.config.process_xinclude:
             tree = etree.parse(source, base_url=self.parser.config.base_url)  # nosec
             tree.xinclude()
+            self.strip_comments(tree)
             ctx = etree.iterwalk(tree, EVENTS)
         else:
             ctx = etree.iterparse(
@@ -41,6 +43,15 @@ class LxmlEventHandler(XmlHandler):
             )
 
         return self.process_context(ctx, ns_map)
+
+    @classmethod
+    def strip_comments(cls, tree: Any):
+        """Merge the text around comments and processing instructions.
+
+        The nodes of an already parsed tree are consumed while walking it,
+        text and tail must not end at a comment in the middle of a value.
+        """
+        etree.strip_tags(tree, etree.Comment, etree.ProcessingInstruction)
 
     def process_context(
         self,
